@@ -1,6 +1,30 @@
 # per-property claims (exec'd by gen_manifest.py)
+NOTE = ("Trusted: Coq 8.16.1 kernel, extraction (ExtrOcamlBasic/ExtrOcamlString), the OCaml driver, the native harness and swc's serde dump; "
+        "the model is hand-written and tied to /repo by the correspondence on this property's projection, by the regenerated constants "
+        "(gen/extract_constants.py -> coq/Generated.v) and by running the extracted specification functions on the implementation's own trees. ")
+TECH = "Coq theorems about an executable model and about specification-side validators + extracted-model/implementation correspondence + validators on implementation output"
+
+claim("C02",
+      "Theorems: erasing a hook call yields its first argument; untouched code is a fixed point of the eraser (induction over the tree); the eraser is run on the implementation's output tree, and the printed content must re-parse to the same tree.",
+      NOTE + "Reading: x += y is compared as x = x + y; swc's printer is exercised, not proved.", TECH, "DESIGN.md section 5 (C02)")
+claim("C03",
+      "Theorems: operand handling pushes exactly the expression standing in the operation (literal, kept identifier or fresh temporary) for every operand tree and state; for binary + the specification-side reader of hook calls finds arguments = operands in order; the same reader runs on every hook call of the implementation's output.",
+      NOTE + "Known findings (operand that is a + left in place, apply holes, apply spread) are excluded by class; run-time value half assumes re-reading a temporary/identifier is stable (H1, H6).", TECH, "DESIGN.md section 5 (C03)")
+claim("C04",
+      "Theorems: a + with an operand that is neither literal nor a + left in place is always wrapped, and the wrapper is recognised under the operation's span; required sites are computed from the input by the extracted specification and looked up in the implementation's output.",
+      NOTE + "Known finding apply-nonarray-args excluded by class; readings of DESIGN 5.0.", TECH, "DESIGN.md section 5 (C04)")
+claim("C05",
+      "Theorems: with nothing enabled every program is NotModified with count 0 (induction over the whole traversal); every name dereferenced on the hook namespace is a configured replacement name; bare calls need the flag; to_config defaults. Checked on the code: hook names and (operation -> name) pairs of the implementation's output, twin configurations (locality), the real to_config vs the model, the prologue executed in Node.",
+      NOTE + "The prologue's JS semantics is exercised, not proved; Unicode upper-casing modelled as ASCII.", TECH, "DESIGN.md section 5 (C05)")
+claim("C06",
+      "Theorems: allocation gives a fresh, registered, once-assigned temporary and moves the counter; names are injective in the counter; the injected let is recognised by the specification; a reserved-prefix user identifier marks the provider. The extracted hygiene checker runs on the implementation's output (declared, same activation, assigned before read, no clobbering, clashes) with planted reserved identifiers.",
+      NOTE + "Known finding temps-cross-function-boundary (parameter defaults / class fields of functions declared in a block) excluded by class.", TECH, "DESIGN.md section 5 (C06)")
+claim("C07",
+      "Theorems: the operation visitor maps directives to directives and creates none (induction over the traversal via root-kind stability); the injected let and the file prologue are inserted right after the unchanged directive prologue. The extracted validator compares directive prologues block by block on the implementation's output.",
+      NOTE + "swc's printer emits directives verbatim (exercised by C08).", TECH, "DESIGN.md section 5 (C07)")
+claim("C12",
+      "Theorems: the prologue is inserted iff the status is Modified; results are Modified or NotModified only; an untouched operation never changes status. Checked on the code: status vs content vs hook sites vs prologue vs trailer for every case, and main.js handing back the caller's text through a stand-in native module replaying real results.",
+      NOTE + "wasm glue not exercised.", TECH, "DESIGN.md section 5 (C12)")
 claim("C15",
-      "Theorems (Coq, no axioms) about the model's status/telemetry bookkeeping for every verbosity and state; the model is tied to the code by full-output correspondence (status, count, tags, whole output tree) on generated programs x configurations, and the specification-side hook-site counter (extracted from Coq) is run on the implementation's own output trees for every case.",
-      "Trusted: Coq kernel, extraction, OCaml driver, native harness and serde dump; the model is hand-written (validated by correspondence, not derived from the Rust). Known finding C15-compound-target-dup is excluded by a syntactic class.",
-      "Coq theorems about an executable model + extracted-model/implementation correspondence + validators on implementation output",
-      "DESIGN.md section 5 (C15)")
+      "Theorems (Coq, no axioms) about the model's status/telemetry bookkeeping for every verbosity and state, and that an instrumented + adds exactly one hook site; the model is tied to the code by correspondence (status, count, tags) on generated programs x configurations, and the specification-side hook-site counter (extracted from Coq) is run on the implementation's own output trees for every case.",
+      NOTE + "Known finding C15-compound-target-dup is excluded by a syntactic class.", TECH, "DESIGN.md section 5 (C15)")
